@@ -111,11 +111,12 @@ def run_one(scn, kind, loop, how=0):
 
 
 if __name__ == '__main__':
+    from _guard import guarded
     loop = asyncio.new_event_loop()
     out = []
     import zlib
     for s in json.load(open(sys.argv[1])):
         how = zlib.crc32(json.dumps(s, sort_keys=True).encode()) % 3     # not the position: the enumeration order is periodic
-        out.append(run_one(s, 'sync', loop, how))
-        out.append(run_one(s, 'async', loop, how))
+        out.append(guarded(run_one)(s, 'sync', loop, how))
+        out.append(guarded(run_one)(s, 'async', loop, how))
     json.dump(out, open(sys.argv[2], 'w'))
